@@ -641,11 +641,11 @@ def _airy_zero(ctx, which, k, derivative, complex=False):
 
 @defun
 def airyaizero(ctx, k, derivative=0):
-    return _airy_zero(ctx, 0, k, derivative, False)
+    return +_airy_zero(ctx, 0, k, derivative, False)
 
 @defun
 def airybizero(ctx, k, derivative=0, complex=False):
-    return _airy_zero(ctx, 1, k, derivative, complex)
+    return +_airy_zero(ctx, 1, k, derivative, complex)
 
 def _scorer(ctx, z, which, kwargs):
     z = ctx.convert(z)
